@@ -3,6 +3,7 @@ import json
 import math
 import os
 import struct
+import time
 
 from checks import common
 
@@ -415,8 +416,11 @@ def run(ctx):
     ctx.rule = ("op lines `fwd theta` (pi_from_theta -> pseudoinertia_from_pi -> theta_from_pseudoinertia), `pseudo pi`, `chol J`, `apply theta`; theta seeded "
                 "uniform in boxes of half-width 1/3%s (mixtures, some integer/corner points, directed unit vectors); a case is distinct by its line; "
                 "all cases are non-trivial except the malformed-op lines" % ("/8" if thorough else ""))
+    t0 = time.time()
+    phase = {}
     ctx.lean_props(THEOREMS)
     drv = ctx.driver("drv_c47")
+    phase["lean build+audit"] = round(time.time() - t0, 1)
     if not os.path.exists(os.path.join(common.REPO, "python", "mujoco", "sysid", "_src", "model_modifier.py")):
         ctx.oblige("anchor python/mujoco/sysid/_src/model_modifier.py present", "impl-build", False, "file missing")
         return
@@ -501,6 +505,7 @@ def run(ctx):
         done += n
         first = False
 
+    phase["differential+oracle"] = round(time.time() - t0, 1)
     # ---- apply -> compile -> same mass properties (wheel's MjSpec as container)
     cl, cth = [], []
     for _ in range(ncompile):
@@ -528,6 +533,8 @@ def run(ctx):
                     ctx.oracle_failure(key, what, {"theta": th, "line": l, "impl_output": json.loads(o), "replay": replay_cmd(l)})
         ctx.sample({"op": cl[0], "compile": json.loads(outs[0]) if outs[0].startswith("{") else outs[0]})
 
+    phase["compile"] = round(time.time() - t0, 1)
+    ctx.extra["phase_cumulative_s"] = phase
     ctx.extra["input_distribution"] = hist
     ctx.extra["tolerances"] = {
         "forward (pi, J, body)": "|model-numpy| <= %g * scale; scale(J_ab)=sqrt(J_aa J_bb), scale(I_ii)=scale(Sigma_ii)=tr(Sigma), scale(m)=m, scale(h_i)=sqrt(J_ii m)" % REL,
